@@ -2,8 +2,9 @@
    PRO: own address + a history of operations (register / remove / tick with a scripted link answer /
         send_packet), each against a fresh link script.                      C15, C16, C17
    EXC: one exchange_packet / exchange_packets call against a queue of incoming results.     C18
-   The checkers rebuild the handler table from the ids the IMPLEMENTATION returned, so that a registry
-   defect (C17) does not also alarm the dispatch properties. *)
+   The checkers and the C15/C16 views rebuild the handler table from the ids the observed side returned and
+   compare each dispatch with what the model does on THAT table, so that a registry defect (C17) does not
+   also alarm the dispatch properties; the registry correspondence itself is C17's view. *)
 Require Import RP.Model.Base RP.Model.Packet RP.Model.Events RP.Model.Protocol RP.Lemmas.Registry RP.Glue.Wire RP.Glue.StreamLink.
 
 Definition perr_code (e: perr) : N := match e with PInterface c => 100 + c | PNoSuchHandler => 1 | PTimeout => 2 end.
@@ -81,12 +82,12 @@ Fixpoint pro_walk (own: N) (t: table) (ops: list pop) (obs: list (list N)) (step
           (* a delivery to the own address / broadcast also reveals which handlers are live (C17) *)
           let reveals := match g with GPacket p => owned_addr own p | _ => false end in
           let ids_ok := match g with GPacket p => true | _ => true end in
-          ((15, x) :: (if reveals then [(17, x)] else []) ++ vs,
+          ((15, [b2N (list_eqb x expect)]) :: (if reveals then [(17, x)] else []) ++ vs,
            if list_eqb x expect then fs else (15, [150; step]) :: (if reveals then [(17, [173; step])] else []) ++ fs)
       | PSend p ans =>
           let expect := show_dispatch (send_packet own t p (mkI [] ans [])) in
           let '(vs, fs) := pro_walk own t ops' obs' (step + 1) in
-          ((16, x) :: vs, if list_eqb x expect then fs else (16, [160; step]) :: fs)
+          ((16, [b2N (list_eqb x expect)]) :: vs, if list_eqb x expect then fs else (16, [160; step]) :: fs)
       end
   | _, _ => ([(0, [3054])], [(15, [3054]); (16, [3054]); (17, [3054])])
   end.
